@@ -101,19 +101,18 @@ Definition t_scan (m : list byte -> bool) (cursor : N) (count : nat) (t : table)
 
 (* ---------------------------------------------------------------------------------------------- *)
 
-Record store := { ssize : N; snext : N; stabs : list table (* oldest first; the last one is written *) }.
+Record store := { ssize : N; snext : N; stabs : list table (* NEWEST FIRST: the head is the table that is
+                                                               written; Go's k.tables is the reverse *) }.
 
 Definition empty_store (size : N) : store := {| ssize := size; snext := 0; stabs := [] |}.
 (* KVStore.Fork: a child starts with one table *)
 Definition fork_store (size : N) : store := {| ssize := size; snext := 1; stabs := [new_table size 0] |}.
 
-Fixpoint map_last {A} (f : A -> A) (l : list A) : list A :=
-  match l with
-  | [] => []
-  | [x] => [f x]
-  | x :: r => x :: map_last f r
-  end.
+Definition with_tabs (s : store) (ts : list table) : store :=
+  {| ssize := ssize s; snext := snext s; stabs := ts |}.
 
+(* the first recycled table in Go order (oldest first) and the list without it; input and output lists
+   are OLDEST first *)
 Fixpoint take_recycled (ts : list table) : option (table * list table) :=
   match ts with
   | [] => None
@@ -125,40 +124,36 @@ Fixpoint take_recycled (ts : list table) : option (table * list table) :=
          end
   end.
 
-(* KVStore.makeTable *)
+Definition seal_head (ts : list table) : list table :=
+  match ts with
+  | [] => []
+  | t :: r => (if is_recycled t then t else t_set_state table_state_ro t) :: r
+  end.
+
+(* KVStore.makeTable: the head becomes read-only (unless it is a recycled table); a recycled table is
+   reused if there is one, otherwise a table is allocated; either way it becomes the new head. *)
 Definition make_table (s : store) : store :=
-  let ts := map_last (fun t => if is_recycled t then t else t_set_state table_state_ro t) (stabs s) in
-  match take_recycled ts with
+  let ts := seal_head (stabs s) in
+  match take_recycled (rev ts) with
   | Some (t, rest) =>
     {| ssize := ssize s; snext := snext s + 1;
-       stabs := rest ++ [t_set_state table_state_rw (t_set_coef (snext s) t)] |}
+       stabs := t_set_state table_state_rw (t_set_coef (snext s) t) :: rev rest |}
   | None =>
-    {| ssize := ssize s; snext := snext s + 1; stabs := ts ++ [new_table (ssize s) (snext s)] |}
+    {| ssize := ssize s; snext := snext s + 1; stabs := new_table (ssize s) (snext s) :: ts |}
   end.
 
 (* hasWritableTable: some table exists and the last one has not been recycled *)
 Definition has_writable (s : store) : bool :=
-  match rev (stabs s) with [] => false | t :: _ => negb (is_recycled t) end.
+  match stabs s with [] => false | t :: _ => negb (is_recycled t) end.
 
 Inductive sres := SOk | SKeyTooLarge | SEntryTooLarge | SNotFound | SSpin.
 
-Definition with_tabs (s : store) (ts : list table) : store :=
-  {| ssize := ssize s; snext := snext s; stabs := ts |}.
-
-(* delete the superseded versions held by the older tables (everything but the last) *)
-Fixpoint map_butlast {A} (f : A -> A) (l : list A) : list A :=
-  match l with
-  | [] => []
-  | [x] => [x]
-  | x :: r => f x :: map_butlast f r
-  end.
-
-Definition put_on_last (p : table -> tres) (s : store) : option (store * sres) :=
-  match rev (stabs s) with
+Definition put_on_head (p : table -> tres) (s : store) : option (store * sres) :=
+  match stabs s with
   | [] => Some (s, SSpin)       (* unreachable: callers make a table first *)
   | t :: older =>
     match p t with
-    | TOk t' => Some (with_tabs s (rev (t' :: older)), SOk)
+    | TOk t' => Some (with_tabs s (t' :: older), SOk)
     | TKeyTooLarge => Some (s, SKeyTooLarge)
     | TNoSpace => None
     end
@@ -166,14 +161,21 @@ Definition put_on_last (p : table -> tres) (s : store) : option (store * sres) :
 
 (* the retry loop of KVStore.Put / PutRaw; one retry suffices (StoreProofs.put_no_spin) *)
 Definition put_loop (p : table -> tres) (s : store) : store * sres :=
-  match put_on_last p s with
+  match put_on_head p s with
   | Some r => r
   | None =>
     let s1 := make_table s in
-    match put_on_last p s1 with
+    match put_on_head p s1 with
     | Some r => r
     | None => (s1, SSpin)
     end
+  end.
+
+(* deleteStaleVersions: remove the superseded versions held by the older tables *)
+Definition delete_stale (h : N) (ts : list table) : list table :=
+  match ts with
+  | [] => []
+  | t :: older => t :: map (t_delete h) older
   end.
 
 Definition s_put_gen (p : N -> entry -> table -> tres) (h : N) (e : entry) (s : store) : store * sres :=
@@ -182,7 +184,7 @@ Definition s_put_gen (p : N -> entry -> table -> tres) (h : N) (e : entry) (s : 
     let s0 := if has_writable s then s else make_table s in
     let '(s1, r) := put_loop (p h e) s0 in
     match r with
-    | SOk => (with_tabs s1 (map_butlast (t_delete h) (stabs s1)), SOk)
+    | SOk => (with_tabs s1 (delete_stale h (stabs s1)), SOk)
     | _ => (s1, r)
     end.
 
@@ -190,22 +192,22 @@ Definition s_put := s_put_gen t_put.
 Definition s_putraw := s_put_gen t_putraw.
 
 (* newest table first *)
-Fixpoint find_newest (h : N) (rts : list table) : option rec :=
-  match rts with
+Fixpoint find_newest (h : N) (ts : list table) : option rec :=
+  match ts with
   | [] => None
   | t :: r => match t_find h t with Some x => Some x | None => find_newest h r end
   end.
-Definition s_find (h : N) (s : store) : option rec := find_newest h (rev (stabs s)).
+Definition s_find (h : N) (s : store) : option rec := find_newest h (stabs s).
 Definition s_check (h : N) (s : store) : bool := existsb (t_check h) (stabs s).
 
 (* apply f to the newest table that holds h (Get's lastAccess stamp, Delete, UpdateTTL) *)
-Fixpoint on_newest (h : N) (f : table -> table) (rts : list table) : list table :=
-  match rts with
+Fixpoint on_newest (h : N) (f : table -> table) (ts : list table) : list table :=
+  match ts with
   | [] => []
   | t :: r => if t_check h t then f t :: r else t :: on_newest h f r
   end.
 Definition s_on_newest (h : N) (f : table -> table) (s : store) : store :=
-  with_tabs s (rev (on_newest h f (rev (stabs s)))).
+  with_tabs s (on_newest h f (stabs s)).
 
 Definition s_get (h : N) (now : Z) (s : store) : store * option entry :=
   match s_find h s with
@@ -222,11 +224,12 @@ Definition s_updatettl (h : N) (ttl ts now : Z) (s : store) : store * sres :=
   end.
 
 Record stats := { st_alloc : N; st_inuse : N; st_garb : N; st_len : N; st_tables : N }.
+Definition sumN (f : table -> N) (ts : list table) : N := fold_right (fun t a => f t + a) 0 ts.
 Definition s_stats (s : store) : stats :=
-  {| st_alloc := fold_right (fun t a => talloc t + a) 0 (stabs s);
-     st_inuse := fold_right (fun t a => tinuse t + a) 0 (stabs s);
-     st_garb := fold_right (fun t a => tgarb t + a) 0 (stabs s);
-     st_len := fold_right (fun t a => N.of_nat (length (trecs t)) + a) 0 (stabs s);
+  {| st_alloc := sumN talloc (stabs s);
+     st_inuse := sumN tinuse (stabs s);
+     st_garb := sumN tgarb (stabs s);
+     st_len := sumN (fun t => N.of_nat (length (trecs t))) (stabs s);
      st_tables := N.of_nat (length (stabs s)) |}.
 
 (* Range / RangeHKey: every record of every table (order = Go map order, not modelled) *)
@@ -270,7 +273,7 @@ Definition evict_table (c : N) (ord : list N) (s : store) : store :=
   reset_if_empty c (evict_loop c ord 1001 s).
 
 (* second half of Compaction(): free recycled tables whose idle time-out elapsed ([expired] is the clock's
-   answer, the same for every table in a scenario), never the only table *)
+   answer, the same for every table in a scenario), never the only table. List is OLDEST first. *)
 Fixpoint drop_recycled (ts : list table) (len : nat) : list table :=
   match ts with
   | [] => []
@@ -279,13 +282,13 @@ Fixpoint drop_recycled (ts : list table) (len : nat) : list table :=
     else t :: drop_recycled r len
   end.
 
-(* Compaction(): the first garbage-heavy table that is NOT the table being written is drained (returns
-   false = call again); when none qualifies, expired recycled tables are freed (returns true = done). *)
+(* Compaction(): the first (oldest) garbage-heavy table that is NOT the table being written is drained
+   (returns false = call again); when none qualifies, expired recycled tables are freed (returns true). *)
 Definition s_compaction (ord : list N) (expired : bool) (s : store) : store * bool :=
-  match find compactable (removelast (stabs s)) with
+  match find compactable (rev (tl (stabs s))) with
   | Some t => (evict_table (tcoef t) ord s, false)
   | None =>
-    (if expired then with_tabs s (drop_recycled (stabs s) (length (stabs s))) else s, true)
+    (if expired then with_tabs s (rev (drop_recycled (rev (stabs s)) (length (stabs s)))) else s, true)
   end.
 
 (* ------------------------------------- transfer ---------------------------------------------- *)
@@ -295,8 +298,8 @@ Fixpoint first_live (ts : list table) (i : nat) : option (nat * table) :=
   | [] => None
   | t :: r => if is_recycled t then first_live r (S i) else Some (i, t)
   end.
-(* TransferIterator.Export: index and contents of the first non-recycled table *)
-Definition s_export (s : store) : option (nat * table) := first_live (stabs s) 0.
+(* TransferIterator.Export: Go index (oldest first) and contents of the first non-recycled table *)
+Definition s_export (s : store) : option (nat * table) := first_live (rev (stabs s)) 0.
 
 Fixpoint remove_nth {A} (i : nat) (l : list A) : list A :=
   match l, i with
@@ -304,8 +307,8 @@ Fixpoint remove_nth {A} (i : nat) (l : list A) : list A :=
   | _ :: t, O => t
   | x :: t, S i' => x :: remove_nth i' t
   end.
-(* TransferIterator.Drop *)
-Definition s_drop (i : nat) (s : store) : store := with_tabs s (remove_nth i (stabs s)).
+(* TransferIterator.Drop (Go index, oldest first) *)
+Definition s_drop (i : nat) (s : store) : store := with_tabs s (rev (remove_nth i (rev (stabs s)))).
 
 (* ------------------------------------- scan -------------------------------------------------- *)
 
